@@ -141,10 +141,12 @@ pub fn random_match_on(rng: &mut Rng) -> Option<Value> {
         6 => Some(json!("noevents")),
         _ => {
             let mut m = vec![];
-            for s in ["s", "t"] {
-                if rng.chance(2, 3) {
+            // sources that are prefixes of one another with the separator a key encoding might use; ids that
+            // agree modulo 2^32 or are extreme: neighbouring keys of any (source, id) cache
+            for s in ["s", "t", "s-"] {
+                if rng.chance(if s == "s-" { 1 } else { 2 }, 3) {
                     let k = rng.below(3);
-                    let ids: Vec<i64> = (0..k).map(|_| *rng.pick(&[1i64, 2, -1, -2, 0])).collect();
+                    let ids: Vec<i64> = (0..k).map(|_| *rng.pick(&[1i64, 2, -1, -2, 0, 1, 2, -1, 4294967297, -4294967297, i64::MAX, i64::MIN])).collect();
                     m.push(json!([s, ids]));
                 }
             }
@@ -188,7 +190,7 @@ pub fn random_rule(rng: &mut Rng, cfg: &Cfg, name: &str, earlier: &[String]) -> 
         _ => Some("dependency".to_string()),
     };
     let pool_tags = ["t1", "t2", "T1", "", "tag with space"];
-    let pool_att = ["T1234", "t1234", "TA0001", "T1234.001", "t1"];
+    let pool_att = ["T1234", "t1234", "TA0001", "T1234.001", "t1", "Ta0043", "tA0043.001", "Ta1"];
     let pool_act = ["kill", "log", "Kill", ""];
     let pick_set = |rng: &mut Rng, pool: &[&str]| -> Option<Vec<String>> {
         match rng.below(4) {
@@ -213,7 +215,7 @@ pub fn random_rule(rng: &mut Rng, cfg: &Cfg, name: &str, earlier: &[String]) -> 
         cond,
         severity: match rng.below(8) {
             0 => None,
-            1 => Some(*rng.pick(&[10u64, 11, 200, 255])),
+            1 => Some(*rng.pick(&[10u64, 11, 200, 255, 246, 250])),
             _ => Some(rng.below(11) as u64),
         },
         tags: if cfg.meta { pick_set(rng, &pool_tags) } else { None },
@@ -274,7 +276,11 @@ pub fn random_event(rng: &mut Rng, missing: (u64, u64)) -> DynEvent {
             fields.push((p, random_value(rng)));
         }
     }
-    DynEvent { source: rng.pick(&["s", "s", "t", "u"]).to_string(), id: *rng.pick(&[1i64, 1, 2, 0, -1]), fields }
+    DynEvent {
+        source: rng.pick(&["s", "s", "s", "t", "u", "s-"]).to_string(),
+        id: *rng.pick(&[1i64, 1, 1, 2, 2, 0, -1, -1, 4294967297, 4294967298, -4294967295, i64::MAX, i64::MIN]),
+        fields,
+    }
 }
 
 pub fn scenario_json(rules: &[SRule], events: &[DynEvent], rng: &mut Rng, tag: &str) -> Value {
